@@ -260,9 +260,25 @@ def run(ctx):  # noqa: C901, PLR0912, PLR0915
                 if isinstance(n, ast.Assign) and isinstance(n.value, ast.Call) and call_name(n.value) == 'read' and \
                         isinstance(n.targets[0], ast.Name):
                     reads_in.append((n.targets[0].id, n))
-            if not reads_in:
+            # a read whose result is compared on the spot: `if stream.read(2) != CR_LF: raise ..`
+            inline = []
+            for n in ast.walk(w):
+                if isinstance(n, ast.If) and isinstance(n.test, ast.Compare) and len(n.test.ops) == 1 and \
+                        isinstance(n.test.left, ast.Call) and call_name(n.test.left) == 'read':
+                    leaves = any(isinstance(x, (ast.Break, ast.Raise, ast.Return)) for s_ in n.body for x in ast.walk(s_))
+                    inline.append((n, isinstance(n.test.ops[0], ast.NotEq) and leaves))
+            # `while part := stream.read(..):` leaves the loop on an empty read by construction
+            if isinstance(w.test, ast.NamedExpr) and isinstance(w.test.value, ast.Call) and call_name(w.test.value) == 'read' \
+                    and isinstance(w.test.target, ast.Name):
+                inline.append((ast.If(test=ast.Compare(left=w.test.value, ops=[ast.NotEq()], comparators=[]), body=[],
+                                      orelse=[], lineno=w.lineno), True))
+            if not reads_in and not inline:
                 continue
             n_loops += 1
+            for n, ok in inline:
+                ctx.ob('C13.R4', f'{fi.name}: {unparse(n.test.left)} compared in place', ok,
+                       f'{fi.name}: the loop is left when {unparse(n.test.left)} returns b"" (it differs from the expected '
+                       f'constant)', fi=fi, node=n)
             for var, st in reads_in:
                 ok = _loop_exits_on_empty(w, var, st)
                 ctx.ob('C13.R4', f'{fi.name}: {var} = {unparse(st.value)}', ok,
@@ -315,8 +331,8 @@ def run(ctx):  # noqa: C901, PLR0912, PLR0915
                 if any(isinstance(v, ast.Call) and call_name(v) == 'int' for v in vals):
                     names.add(nm)
             facts = g.facts_at(n)
-            ok = any(pol is False and any(txt == f'{nm} < 0' for nm in names) for txt, pol in facts) or \
-                any(pol is True and any(txt in (f'{nm} >= 0', f'{nm} > 0') for nm in names) for txt, pol in facts)
+            ok = any(pol is False and any(txt == f'{nm} < 0' for nm in names) for txt, pol in facts.both()) or \
+                any(pol is True and any(txt in (f'{nm} >= 0', f'{nm} > 0') for nm in names) for txt, pol in facts.both())
             ctx.ob('C13.R4', f'{fi.name}: {unparse(c)} length checked', ok,
                    f'{fi.name}: the peer-supplied length is known non-negative when it reaches read()' if ok else
                    f'{fi.name}: a negative peer-supplied length reaches {unparse(c)} - read(-1) blocks until the peer '
@@ -342,22 +358,31 @@ def run(ctx):  # noqa: C901, PLR0912, PLR0915
                            f'stream (AttributeError instead of DechunkError)', fi=dc, node=a)
 
     # ------------------------------------------------------------------ R5
-    workers = ['sdc11073.consumer.request_handler_deferred.DispatchKeyRegistryDeferred._read_queue',
-               'sdc11073.provider.sco._OperationsWorker.run',
-               'sdc11073.wsdiscovery.networkingthread.NetworkingThread._run_recv',
-               'sdc11073.wsdiscovery.networkingthread.NetworkingThread._run_q_read']
+    worker_loops_contained(ctx, 'C13.R5', WORKERS)
+
+
+WORKERS = ['sdc11073.consumer.request_handler_deferred.DispatchKeyRegistryDeferred._read_queue',
+           'sdc11073.provider.sco._OperationsWorker.run',
+           'sdc11073.wsdiscovery.networkingthread.NetworkingThread._run_recv',
+           'sdc11073.wsdiscovery.networkingthread.NetworkingThread._run_q_read']
+
+
+def worker_loops_contained(ctx, rule, workers):
+    """Every call in the loop of a worker thread is inside a catch-all: one failing message does not end the thread."""
+    repo = ctx.repo
+    _REPO[0] = repo
     for q in workers:
         fi = repo.func(q)
         loops = [w for w in walk_no_nested(fi.node) if isinstance(w, ast.While) and not getattr(w, '_inline_wrapper', False)]
         if not loops:
-            raise AnalysisError(f'C13.R5: no loop in worker {q}')
+            raise AnalysisError(f'{rule}: no loop in worker {q}')
         w = loops[0]
         bad = []
         for st in w.body:
             bad.extend(_uncontained_in_stmt(st))
         bad = [c for c in bad if call_name(c) not in ('get', 'is_set', 'sleep', 'info', 'debug', 'error', 'warning',
                                                       'exception', 'format_exc', 'getLogger')]
-        ctx.ob('C13.R5', f'{fi.cls.name}.{fi.name} loop', not bad,
+        ctx.ob(rule, f'{fi.cls.name}.{fi.name} loop', not bad,
                f'{fi.name}: every call in the thread loop is inside a catch-all (the thread survives any message)'
                if not bad else f'{fi.name}: {[unparse(c.func) for c in bad][:4]} can raise outside a catch-all and '
                                f'terminate the worker thread', fi=fi, node=w,
